@@ -17,6 +17,9 @@ pub struct Client {
     server_name: ServerName<'static>,
     tls_config: Arc<tokio_rustls::TlsConnector>,
     padding: Arc<PaddingFactory>,
+    // The process-wide default scheme at the time this client was built: once it has been replaced (the server pushed
+    // a scheme and a session adopted it), new sessions start from the adopted scheme instead of `padding`
+    default_seen: Arc<PaddingFactory>,
     session_pool: Arc<SessionPool>,
     pool_config: SessionPoolConfig,
 }
@@ -60,6 +63,7 @@ impl Client {
             server_name,
             tls_config,
             padding,
+            default_seen: PaddingFactory::default(),
             session_pool,
             pool_config,
         }
@@ -295,7 +299,15 @@ impl Client {
         // Split TLS stream into reader and writer
         let (reader, mut writer) = tokio::io::split(tls_stream);
         tracing::trace!("[Client] Sending authentication");
-        send_authentication(&mut writer, &self.password_hash, &self.padding).await?;
+        // A scheme pushed by the server replaces the process-wide default: sessions opened afterwards announce and use
+        // it (so that it is not pushed again); until then the scheme this client was given applies
+        let current_default = PaddingFactory::default();
+        let padding = if Arc::ptr_eq(&current_default, &self.default_seen) {
+            self.padding.clone()
+        } else {
+            current_default
+        };
+        send_authentication(&mut writer, &self.password_hash, &padding).await?;
         tracing::debug!("[Client] Authentication sent successfully");
 
         // Create session with reader and writer
@@ -306,7 +318,7 @@ impl Client {
         let session = Arc::new(Session::new_client(
             reader,
             writer,
-            self.padding.clone(),
+            padding,
             Some(heartbeat_config),
         ));
 
